@@ -296,7 +296,7 @@ func genMuts(r *vh.Rand, b []byte, nflips int) []Mut {
 func codecAll(t *testing.T, run *vh.Run, r *vh.Rand, env vh.Env) {
 	thorough := env.Tier == "thorough"
 	// generated records with all field shapes, reference-marshalled (deterministic order: byte-exact re-encoding)
-	nSmall := env.N(40, 5)
+	nSmall := env.N(24, 8)
 	for i := 0; i < nSmall; i++ {
 		k := r.Intn(4)
 		var n []NEntry
@@ -319,7 +319,7 @@ func codecAll(t *testing.T, run *vh.Run, r *vh.Rand, env vh.Env) {
 		codecCase(t, run, &c)
 	}
 	// real Snapshot() output (map iteration order, non-deterministic marshalling) of stores of several sizes
-	sizes := []int{0, 1, 2, 3, 10, 60}
+	sizes := []int{0, 1, 2, 3, 10, 40}
 	if thorough {
 		sizes = append(sizes, 500, 2000)
 	}
@@ -344,7 +344,7 @@ func codecAll(t *testing.T, run *vh.Run, r *vh.Rand, env vh.Env) {
 		run.Count("real_snapshot_sizes", fmt.Sprintf("%d", k))
 	}
 	// prefixes and corruptions of small snapshots
-	nMut := env.N(5, 4)
+	nMut := env.N(3, 6)
 	for i := 0; i < nMut; i++ {
 		k := 1 + r.Intn(3)
 		var n []NEntry
@@ -361,10 +361,10 @@ func codecAll(t *testing.T, run *vh.Run, r *vh.Rand, env vh.Env) {
 			}
 		}
 		bn := marshalN(n)
-		c := Case{Kind: "mutate", Store: storeNflog, Bytes: bn, Muts: genMuts(r, bn, 160)}
+		c := Case{Kind: "mutate", Store: storeNflog, Bytes: bn, Muts: genMuts(r, bn, 110)}
 		mutateCase(t, run, &c)
 		bs := marshalS(s)
-		c = Case{Kind: "mutate", Store: storeSilence, Bytes: bs, Muts: genMuts(r, bs, 160)}
+		c = Case{Kind: "mutate", Store: storeSilence, Bytes: bs, Muts: genMuts(r, bs, 110)}
 		mutateCase(t, run, &c)
 	}
 }
